@@ -301,7 +301,11 @@ def run(ctx):
                         # arity-preserving map over the same list that copies the names
                         val = n.value if isinstance(n, ast.Assign) else None
                         vt = " ".join(norm(val).split()) if val is not None else ""
-                        ok = vt.startswith("list(map(") and "node.args.args" in vt and "filter(" not in vt
+                        from .c02 import elementwise
+
+                        ew = elementwise(val) if val is not None else None
+                        # one new arg per old arg, in order: an element-wise build over node.args.args without a filter
+                        ok = ew is not None and norm(ew[0]) == "node.args.args" and not ew[3] and "filter(" not in vt
                         why = "args.args must be rebuilt by an arity-preserving map over node.args.args"
                     if not ok and not why:
                         why = "DocTrans assigns `{}`: only annotations, type comments, returns and visited bodies may change".format(chain)
